@@ -1450,3 +1450,70 @@ func VerifNamespaces(n int) {
 	}
 	verifapi.Assert(verifDropShift(outB, at, delta) == outA, "C27-ns")
 }
+
+// ---- C23: completion ----
+
+// VerifSuggest: --suggest on a cursor row holding a receiver (with or without the trailing
+// dot) after a small user hierarchy. The listing must contain the methods callable on the
+// receiver (own, inherited, Object's) and none that only unrelated classes define, no class
+// methods for an instance receiver (and vice versa), no private method of another class.
+func VerifSuggest(n int) {
+	recv := verifapi.Concrete(verifapi.Int("receiver", 0, 3))
+	dot := verifapi.Concrete(verifapi.Int("dot", 0, 1))
+	s := &verifSym{}
+	if recv == 2 {
+		s.ka = verifapi.Int("ka", 1, 2) // Integer or String
+		builtin.VerifInstallSymValues([]string{"a"}, map[string]base.T{"a": *base.VerifKindT(s.ka)})
+		verifapi.WitnessList("Sym.a", verifKN(s.ka))
+	}
+	src := "class Aa\ndef pa\n1\nend\nprivate\ndef secret\n2\nend\nend\nclass Bb < Aa\ndef pb\n3\nend\ndef self.cb\n4\nend\nend\nclass Zz\ndef pz\n5\nend\nend\nk = Bb.new\nv = Sym.a\n"
+	if recv != 2 {
+		src = strings.Replace(src, "v = Sym.a\n", "v = 1\n", 1)
+	}
+	row := verifCountLines(src) + 1
+	cursor := []string{"k", "Bb", "v", "[1]"}[recv]
+	if dot == 1 {
+		cursor += "."
+	}
+	src += cursor + "\n"
+	verifapi.Witness("src", src)
+	verifapi.Witness("flags", "--suggest --row="+verifItoa(row))
+	flags := cmd.NewExecuteFlags()
+	flags.IsSuggest = true
+	out := verifRunFlags(src, flags, row)
+	verifapi.Reach("ran")
+	form := []string{"receiver-alone", "receiver-with-trailing-dot"}[dot]
+	rname := []string{"user-instance", "user-class", "configured-class-value", "array-literal"}[recv]
+	must := func(id, m, what string) {
+		verifapi.Witness(id+".must", m)
+		verifapi.Classify("C23/callable-method-not-listed/" + what + "/" + rname + "/" + form)
+		verifapi.Assert(verifHasLine(out, "%"+m+":::", ""), id)
+	}
+	mustNot := func(id, m, what string) {
+		verifapi.Witness(id+".mustnot", m)
+		verifapi.Classify("C23/uncallable-method-listed/" + what + "/" + rname + "/" + form)
+		verifapi.Assert(!verifHasLine(out, "%"+m+":::", ""), id)
+	}
+	switch recv {
+	case 0:
+		must("C23-own", "pb", "own-instance-method")
+		must("C23-inh", "pa", "inherited-instance-method")
+		must("C23-obj", "nil?", "object-method")
+		mustNot("C23-unrel", "pz", "method-of-unrelated-class")
+		mustNot("C23-static", "cb", "class-method-for-instance-receiver")
+		mustNot("C23-priv", "secret", "private-method-of-another-class")
+	case 1:
+		must("C23-own", "cb", "own-class-method")
+		mustNot("C23-unrel", "pz", "method-of-unrelated-class")
+		mustNot("C23-static", "pb", "instance-method-for-class-receiver")
+	case 2:
+		must("C23-own", verifapi.Pick(s.ka-1, "times", "upcase"), "configured-class-method")
+		must("C23-obj", "nil?", "object-method")
+		mustNot("C23-unrel", verifapi.Pick(s.ka-1, "upcase", "times"), "method-of-unrelated-class")
+		mustNot("C23-unrel2", "pz", "method-of-unrelated-class")
+	case 3:
+		must("C23-own", "push", "configured-class-method")
+		mustNot("C23-unrel", "upcase", "method-of-unrelated-class")
+		mustNot("C23-unrel2", "pb", "method-of-unrelated-class")
+	}
+}
